@@ -362,7 +362,9 @@ class NewtonModel:
         # obligations on the arbitrary root introduced here
         del ev.path.safety[nsafe:]
         conv = z3.Bool("newton_converged")
-        self.recorded.append({"root": root, "residual": res, "mask": x0.mask, "conv": conv})
+        rec = {"root": root, "residual": res, "mask": x0.mask, "conv": conv}
+        self.recorded.append(rec)
+        ev.path.notes.append(("newton", rec))        # per-path record (self.recorded only holds the last path's calls)
         return NewtonResult(root, conv)
 
 
@@ -462,21 +464,36 @@ def _lambda_unit(ctx, gas, friction, use_numba):
         conv = z3.Bool("newton_converged")
         ctx.ob("raises/only-if-not-converged", "ensures", req,
                z3.And(*[z3.Implies(p.cond(), z3.Not(conv)) for p in raising] or [z3.BoolVal(True)]))
+        recs = {id(p): [d for tag, d in p.notes if tag == "newton"] for p in paths}
+        solved = [p for p in normal if recs[id(p)]]
+        unsolved = [p for p in normal if not recs[id(p)]]
         ctx.ob("returns/only-if-converged", "ensures", req,
-               z3.And(*[z3.Implies(p.cond(), conv) for p in normal]))
-        rec = newton.recorded[-1] if newton.recorded else None
-        ctx.decided("newton/called", "cover", rec is not None, witness="newton never called")
-        if rec is not None:
+               z3.And(*[z3.Implies(p.cond(), conv) for p in solved] or [z3.BoolVal(True)]))
+        ctx.decided("newton/called", "cover", len(solved) >= 1, witness="newton never called")
+        turb = SP.lambda_turbulent(o["k"].f(r), o["d"].f(r), gas)   # start value kept off-mask
+        want_mask = B(colebrook_mask(re, o["lengths"].f(r)))
+        for kx, p in enumerate(solved):
+            rec = recs[id(p)][-1]
             root = rec["root"].f(r)
             mask = rec["mask"].f(r)
-            ctx.ob("newton/residual-is-colebrook", "ensures", req + [B(mask), root > 0],
+            sfx = "" if len(solved) == 1 else "#%d" % kx
+            ctx.ob("newton/residual-is-colebrook" + sfx, "ensures", req + [p.cond(), B(mask), root > 0],
                    K.eq_val(rec["residual"].f(r),
                             SP.colebrook_residual(root, re, o["k"].f(r), o["d"].f(r))))
-            ctx.ob("newton/mask", "ensures", req,
-                   B(mask) == B(colebrook_mask(re, o["lengths"].f(r))))
-            turb = SP.lambda_turbulent(o["k"].f(r), o["d"].f(r), gas)   # start value kept off-mask
-            ctx.ob("ensures/lambda", "ensures", req,
-                   goal_over_paths(normal, lambda p: p.result[0], ite(mask, root, turb), r))
+            ctx.ob("newton/mask" + sfx, "ensures", req + [p.cond()] + list(p.facts), B(mask) == want_mask)
+            # requires@callsite of the assumed contract of scipy's newton: a NON-EMPTY vector of start values (scipy raises a
+            # ValueError on an empty one, which would leave pipeflow as an exception that is not PipeflowNotConverged -- F34)
+            jj = z3.Int("j!sel")
+            ctx.ob("newton/called-with-a-non-empty-selection" + sfx, "requires@callsite", req + [p.cond()] + list(p.facts),
+                   z3.Exists([jj], z3.And(jj >= 0, jj < spec.NB, B(rec["mask"].f(jj)))))
+            ctx.ob("ensures/lambda" + sfx, "ensures", req + list(p.facts),
+                   goal_over_paths([p], lambda q: q.result[0], ite(mask, root, turb), r))
+        # a return WITHOUT solving is allowed only when no row has both flow and length; every row then keeps the start value
+        for kx, p in enumerate(unsolved):
+            ctx.ob("unsolved-return/only-when-no-row-is-selected#%d" % kx, "ensures", req + [p.cond()] + list(p.facts),
+                   z3.Not(want_mask))
+            ctx.ob("unsolved-return/start-value-kept#%d" % kx, "ensures", req + list(p.facts),
+                   goal_over_paths([p], lambda q: q.result[0], turb, r))
     ctx.check_safety(paths, req, "fn")
 
 
